@@ -6,7 +6,12 @@ Stop / Cancel, continuous mode), Scanner.tla (flatten + matcher workers + callba
 FetcherTrace.tla (trace validation; TLC infers which worker made which request), ScannerFanout.tla (case analysis of
 complete scans whose outcome does not depend on scheduling: tree size, start / end, batch size 1..16, reply policy of the
 log, fetchers, matcher workers 1..6, channel capacity, matcher; laws checked exhaustively; expected batches and callbacks
-exported per case together with the (batch length : matcher workers : capacity) classes it exercises).
+exported per case together with the (batch length : matcher workers : capacity) classes it exercises), ScanSelect.tla /
+ScanClasses.tla (the CONTENT dimension of "every entry its matcher selects": an entry is described by the defects its
+(pre-)certificate carries, each belonging to a layer - "der": strict decoding of the outer structure fails and lenient
+decoding reads it; "field": a field breaks its own syntax; "fatal": no certificate can be read -; named clause
+TolerableComposes: tolerable defects of one layer or of several layers at once never make an entry unreadable; case analysis
+over every set of defects of the catalogue x entry kind).
 
 Binding (harness/vt/c16, go1.26 testing/synctest virtual time, -race): a scripted scanner.LogClient under the real
 scanner.Fetcher.Run / scanner.Scanner.Scan.
@@ -14,6 +19,10 @@ scanner.Fetcher.Run / scanner.Scanner.Scan.
   spec -> code: every exported case of ScannerFanout.tla (a deterministic cover of batch length x matcher workers plus
                 seeded random draws from the full product) runs through Scanner.Scan / Fetcher.Run on the log content the
                 specification prescribes; the callbacks made must be exactly the specification's Calls.
+  spec -> code: every case of ScanClasses.tla (460: kind x defect sets) is built with real DER (edits of the DER tree of
+                certificates issued by the standard library), laid out in logs and scanned by Scanner.Scan with Matcher- and
+                LeafMatcher-type matchers; the callbacks made must be the owed ones.  The logs of all other stages hold
+                entries of every class too (one layer, one layer twice, both layers at once, fatal alone / in company).
   code -> spec: traces of randomly configured runs (and of the replayed ones) are validated by FetcherTrace.tla.
   oracle-free monitors on every run: exactly once with the served bytes, nothing outside, termination, continuous-mode
   initial segment when quiet, callbacks once per selected entry and by entry type.
@@ -30,6 +39,13 @@ ASSUME = [
     "while the run's context is alive) are counted (an error budget per run), never timed; BatchSize >= 1, ParallelFetch >= 1, StartIndex >= 0",
     "tree heads follow the published size (monotone); entries are tokens in the specification, the harness attaches real "
     "X.509 / precertificate leaves built with harness/ref and compares bytes",
+    "log content: an entry is its kind and the set of defects its (pre-)certificate carries, from a catalogue of 12 (3 of the DER "
+    "layer: padded serial / version INTEGER, empty extension OID; 5 of the field layer: 3-octet iPAddress, empty AIA / SIA, empty EKU "
+    "value, '@' in a PrintableString of the subject; 4 fatal: cut, trailing octet, month 13, SET for SEQUENCE), at most two per tolerable "
+    "layer and one fatal per entry; named clause TolerableComposes (the property does not define 'selects' for defective certificates: "
+    "the code's reader yields every certificate whose defects are tolerable one by one, so a scan owes such an entry its callback "
+    "whatever the combination; a Matcher-type matcher is never asked about an entry with a fatal defect, a LeafMatcher always is); "
+    "signatures are not re-made after an edit (a scan verifies none)",
     "model bounds: exhaustive for tree sizes <= 4 (quick) / 5 (thorough) with growth, batch 1..3, 1..2 fetchers, <= 2 errors; "
     "scanner model tree sizes <= 3 / 4, 2 matcher workers; runs against the real code use tree sizes <= 16, batch 1..5, "
     "1..4 fetchers, 1..6 matcher workers; ScannerFanout cases: tree sizes <= 24, batch 1..16, 1..4 fetchers, 1..6 matcher workers, "
@@ -47,7 +63,7 @@ def run(ctx, replay=None):
         with open(replay) as f:
             rp = json.load(f)
         data = rp.get("replay") or {}
-        case = {"Config": data.get("config"), "Run": data.get("run"), "World": data.get("world")}
+        case = {"Config": data.get("config"), "Run": data.get("run"), "World": data.get("world"), "Entries": data.get("entries")}
         if not case["Config"]:
             raise Infra("replay file carries no configuration")
         path = ctx.write_ndjson("case.ndjson", [case])
@@ -78,6 +94,9 @@ def run(ctx, replay=None):
 
     # 2b. spec -> code: the fan-out case space (batch length x matcher workers x channel capacity x reply policy ...)
     fanout(ctx)
+
+    # 2c. spec -> code: the content dimension (entry kind x sets of defects of the catalogue, layer by layer)
+    classes(ctx)
 
     # 3. code -> spec: randomly configured runs of the real code
     _, outdir, _ = ctx.go_test("vt/c16", run="TestTrace$", env={"VERIF_TRACES": ctx.pick(400, 4000)}, toolchain="go1.26",
@@ -117,6 +136,40 @@ def fanout(ctx):
     wpath = ctx.write_ndjson("fanout-world.ndjson", world)
     _, outdir, _ = ctx.go_test("vt/c16", run="TestFanout$", env={"VERIF_FANOUT_CASES": cpath, "VERIF_FANOUT_WORLD": wpath},
                                toolchain="go1.26", race=True, timeout=ctx.pick(900, 3000), name="c16fanout")
+    validate_traces(ctx, os.path.join(outdir, "traces.ndjson"), None)
+
+
+def classes(ctx):
+    """ScanClasses.tla: laws on every description of an entry (TLC, exhaustive), every case built with real DER and
+    scanned by the real Scanner.Scan (TestClasses), a third of the scans also through FetcherTrace."""
+    r = ctx.tlc("client", "ScanClasses", "ScanClasses.cfg", workers=1, timeout=3000)
+    cat = r.records.get("CATALOGUE", [])
+    cases = r.records.get("CASE", [])
+    if len(cat) != 1 or not cases:
+        raise Infra("ScanClasses exported no CATALOGUE record / no cases")
+    # vacuity: readable entries with defects of both layers at once, of one layer twice, and fatal ones in tolerable
+    # company must be among the cases, for both kinds
+    need = {(cl, kd) for cl in ("clean", "der", "field", "der+field", "der+der", "field+field", "der+field+field", "der+der+field",
+                                 "fatal", "fatal+der", "fatal+field", "fatal+der+field") for kd in ("x509", "precert")}
+    have = {(c["class"], c["kind"]) for c in cases}
+    if need - have:
+        raise Infra("ScanClasses cases lack the classes %s" % sorted(need - have))
+    for c in cases:
+        if (c["parse"] == "fatal") == c["askedMatcher"] or not c["askedLeaf"]:
+            raise Infra("ScanClasses case %s contradicts ScanSelect.tla" % c)
+    ctx.log("class cases: %d exported, %d classes, %d readable with defects of both layers" % (
+        len(cases), len({c["class"] for c in cases}),
+        sum(1 for c in cases if c["parse"] == "nonfatal" and "der" in c["class"] and "field" in c["class"])))
+    cpath = ctx.write_ndjson("class-cases.ndjson", cases)
+    kpath = ctx.write_ndjson("class-catalogue.ndjson", cat)
+    _, outdir, reps = ctx.go_test("vt/c16", run="TestClasses$", env={"VERIF_CLASS_CASES": cpath, "VERIF_CLASS_CATALOGUE": kpath},
+                                  toolchain="go1.26", race=True, timeout=ctx.pick(900, 3000), name="c16classes")
+    # vacuity: unless the run reported violations, every readable case must have reached a callback through a Matcher-type matcher
+    readable = sum(1 for c in cases if c["askedMatcher"])
+    for rep in reps:
+        got = (rep.get("extra") or {}).get("cases_delivered_to_matcher", 0)
+        if not rep.get("violations") and got < readable:
+            raise Infra("TestClasses delivered %d of the %d readable cases to a Matcher-type matcher" % (got, readable))
     validate_traces(ctx, os.path.join(outdir, "traces.ndjson"), None)
 
 
